@@ -1,14 +1,16 @@
 (* Witnesses for the known findings of C31 (known_findings/C31.json). *)
-Require Import PonyV.Base.PyBase PonyV.Model.C31Bag PonyV.Proofs.C31Bag.
+Require Import PonyV.Base.PyBase PonyV.Model.C31Codec PonyV.Gen.C31Reduce PonyV.Model.C31Bag PonyV.Proofs.C31Bag.
 
 (* bag-given-object-without-collections: objects 0 (a C) and 1 (its B) are both given, C first: processing 0 stores 1 as a related
    object (no collections); 1 is then skipped because it already has an entry *)
 Definition rel01 (o : nat) : list nat := match o with 0%nat => [1%nat] | 1%nat => [0%nat] | _ => [] end.     (* relationships have two sides *)
-Theorem C31_bag_given_full_refuted : bag_to_dict rel01 [0%nat; 1%nat] 1%nat = Some Partial.
-Proof. vm_compute. reflexivity. Qed.
+(* (statements are about the original guards: they are vacuous once bag_skips_given_related is true) *)
+Theorem C31_bag_given_full_refuted : bag_skips_given_related = false -> bag_to_dict rel01 [0%nat; 1%nat] 1%nat = Some Partial.
+Proof. intros H. unfold bag_to_dict. rewrite H. vm_compute. reflexivity. Qed.
 Print Assumptions C31_bag_given_full_refuted.
 
 (* ...whichever of two related given objects comes first, the other one is stored as a related object only *)
-Theorem C31_bag_order_dependent : bag_to_dict rel01 [1%nat; 0%nat] 1%nat = Some Full /\ bag_to_dict rel01 [1%nat; 0%nat] 0%nat = Some Partial.
-Proof. split; vm_compute; reflexivity. Qed.
+Theorem C31_bag_order_dependent : bag_skips_given_related = false ->
+  bag_to_dict rel01 [1%nat; 0%nat] 1%nat = Some Full /\ bag_to_dict rel01 [1%nat; 0%nat] 0%nat = Some Partial.
+Proof. intros H. unfold bag_to_dict. rewrite H. split; vm_compute; reflexivity. Qed.
 Print Assumptions C31_bag_order_dependent.
